@@ -118,7 +118,73 @@ func closeTarget(w *World, c ssa.CallInstruction) ssa.Value {
 			return cc.Args[0]
 		}
 	}
+	// a module helper that closes one of its parameters on every path (or finds it nil)
+	if sc := cc.StaticCallee(); sc != nil && inModule(sc) && len(sc.Blocks) > 0 {
+		if idx := closesParamIndex(w, sc); idx >= 0 && idx < len(cc.Args) {
+			return cc.Args[idx]
+		}
+	}
 	return nil
+}
+
+var closesParamCache = map[*ssa.Function]int{}
+
+// closesParamIndex: the index of the parameter that fn closes on every returning path (a nil parameter
+// counts as nothing to close), or -1.
+func closesParamIndex(w *World, fn *ssa.Function) int {
+	if v, ok := closesParamCache[fn]; ok {
+		return v
+	}
+	closesParamCache[fn] = -1 // recursion guard
+	res := -1
+	for i, p := range fn.Params {
+		// only closer-like parameters
+		ms := types.NewMethodSet(p.Type())
+		if ms.Lookup(nil, "Close") == nil {
+			continue
+		}
+		okAll, n := true, 0
+		done := enumPaths(fn, nil, func(in ssa.Instruction) bool {
+			c, ok := in.(ssa.CallInstruction)
+			if !ok {
+				return false
+			}
+			if _, isGo := in.(*ssa.Go); isGo {
+				return false
+			}
+			t := closeTarget(w, c)
+			if t == nil {
+				return false
+			}
+			for _, root := range provenance(t, provOpts{}) {
+				if root == ssa.Value(p) {
+					return true
+				}
+			}
+			return t == ssa.Value(p)
+		}, nil, func(e pathExit) {
+			if _, isRet := e.Last.(*ssa.Return); !isRet {
+				return
+			}
+			n++
+			if len(e.State.Events) > 0 {
+				return
+			}
+			// nothing to close: the parameter was found nil on this path
+			for v, t := range e.State.Facts {
+				if x, eqNil, ok := nilTest(v); ok && t == eqNil && x == ssa.Value(p) {
+					return
+				}
+			}
+			okAll = false
+		})
+		if done && okAll && n > 0 {
+			res = i
+			break
+		}
+	}
+	closesParamCache[fn] = res
+	return res
 }
 
 type pipeInfo struct {
@@ -135,6 +201,10 @@ type pipeInfo struct {
 
 // funcValues resolves a called value to the set of functions it may denote.
 func funcValues(v ssa.Value) []*ssa.Function {
+	return funcValuesD(v, 0)
+}
+
+func funcValuesD(v ssa.Value, depth int) []*ssa.Function {
 	var out []*ssa.Function
 	for _, root := range provenance(v, provOpts{}) {
 		switch x := root.(type) {
@@ -142,6 +212,18 @@ func funcValues(v ssa.Value) []*ssa.Function {
 			out = append(out, x)
 		case *ssa.MakeClosure:
 			out = append(out, x.Fn.(*ssa.Function))
+		case *ssa.Call:
+			// a selector helper returning one of several functions
+			if sc := x.Call.StaticCallee(); sc != nil && inModule(sc) && depth < 3 {
+				for _, b := range sc.Blocks {
+					if len(b.Instrs) == 0 {
+						continue
+					}
+					if ret, ok := b.Instrs[len(b.Instrs)-1].(*ssa.Return); ok && len(ret.Results) == 1 {
+						out = append(out, funcValuesD(ret.Results[0], depth+1)...)
+					}
+				}
+			}
 		}
 	}
 	return out
